@@ -221,6 +221,50 @@ def check(ctx):
         if k != "ok" or v != want:
             ctx.violation("dispatch-widen:" + text, text, str(want), repr((k, v)), "execute(%r)" % text)
 
+    # ---- keyword calls as TEXT (the evaluator splits the argument list before dispatch sees it): whether a call is
+    # accepted depends on the kinds of its positional arguments and on its keywords as written — a positional list that matches
+    # no signature is rejected whatever keywords follow (also when one is written twice), and no body runs
+    TXT = {"Number": ["1", "2.5", "1/2"], "String": ['"a"'], "Array": ["{1, 2}"], "Bool": ["1", "0"]}
+
+    def txt_of(t):
+        return TXT.get(R.types.get_type_as_string(t), ["1"])
+    for name in names:
+        for h in F.FUNCTIONS[name]:
+            if not h.sig.kw_args:
+                continue
+            pos_ok = [txt_of(t)[0] for t in h.sig.args]
+            kws = list(h.sig.kw_args.items())
+            variants = []
+            for k, t in kws[:8]:
+                v1, v2 = txt_of(t)[0], txt_of(t)[-1]
+                wrong = '"x"' if R.types.get_type_as_string(t) != "String" else "7"
+                for pos, pos_matches in ((pos_ok, True), (pos_ok[:-1], False), (pos_ok + ["1"], False)):
+                    if not pos_matches and any(len(h2.sig.args) == len(pos) for h2 in F.FUNCTIONS[name]):
+                        continue
+                    variants.append((pos, "%s: %s" % (k, v1), pos_matches))
+                    variants.append((pos, "%s: %s, %s: %s" % (k, v1, k, v2), pos_matches))          # written twice
+                    variants.append((pos, "%s: %s, %s: %s" % (k, wrong, k, v1), pos_matches))
+                    variants.append((pos, "%s: %s, nosuchkw: 1" % (k, v1), False))
+                    variants.append((pos, "%s: %s" % (k, wrong), False))
+            for pos, kwtext, acceptable in variants:
+                text = "%s(%s)" % (name, ", ".join(pos + [kwtext]))
+                called = []
+                saved = [(hh, hh.f) for hh in F.FUNCTIONS[name]]
+                for hh, f in saved:
+                    hh.f = (lambda *a, **kw: called.append(1) or 0)
+                try:
+                    k_, v_ = R.value(text)
+                finally:
+                    for hh, f in saved:
+                        hh.f = f
+                ctx.count("kwtext:" + text, bucket="kw-text:" + ("accepted" if k_ == "ok" else "rejected"))
+                if not acceptable and (k_ == "ok" or called):
+                    ctx.violation("dispatch-kw-text:" + text, text, "rejected before any body runs (positional arguments match no signature, "
+                                  "or an unknown / wrongly typed keyword)", "%s body_ran=%s" % (k_ if k_ == "ok" else "err " + str(v_), bool(called)),
+                                  "execute(%r)" % text)
+                elif k_ == "err" and (str(v_).startswith("py:") or v_ == "diverges"):
+                    ctx.violation("dispatch-kw-text:" + text, text, "a value or a diagnosed error", "err " + str(v_), "execute(%r)" % text)
+
     # ---- no narrowing, on the real code
     for name in names:
         for h in F.FUNCTIONS[name]:
